@@ -107,8 +107,8 @@ def _worker(args):
 
 def check(tier):
     ck = core.Check("C14", tier)
-    shards, n = (16, 500) if tier == "quick" else (64, 1600)
-    res = core.pmap(_worker, [(ck.seed, i, n, "vf") for i in range(shards)])
+    shards, n = (16, 500) if tier == "quick" else (256, 1600)
+    res = core.pmap(_worker, [(ck.seed, i, n, "vf" if i % 4 != 3 else "vf-small") for i in range(shards)])
     counters = sem.merge(ck, res)
     ck.cov["rule"] = ("random histories of 5-40 API calls over up to 3 live objects: create, set any flag, define "
                       "(10 good and 8 defective definitions per shard, callbacks or description), redefine, parse "
